@@ -57,6 +57,7 @@ fn dispatch(mode: &str, line: &str) -> String {
         "tsc" => pure::tsc(line),
         "dur" => pure::dur(line),
         "prec" => pure::prec(line),
+        "precq" => pure::precq(line),
         _ => panic!("unknown mode {mode}"),
     }
 }
